@@ -11,8 +11,8 @@ Ltac decide_ifs_in H :=
   repeat match type of H with
          | context [if ?b then _ else _] =>
              lazymatch b with true => fail | false => fail | _ => idtac end;
-             first [ let E := fresh "Eb" in assert (E : b = true) by (timeout 10 lia); rewrite E in H; clear E
-                   | let E := fresh "Eb" in assert (E : b = false) by (timeout 10 lia); rewrite E in H; clear E ]
+             first [ let E := fresh "Eb" in assert (E : b = true) by (timeout 600 lia); rewrite E in H; clear E
+                   | let E := fresh "Eb" in assert (E : b = false) by (timeout 600 lia); rewrite E in H; clear E ]
          end.
 
 (** ** specification side: one escape sequence, after the backslash *)
